@@ -1031,3 +1031,149 @@ def c07_corr(res, exe, driver, tier, seed, tmp):
                 "back -- and Up/Down inside a multi-line text must move between lines without recalling.")
     for c, impl, model, raw in out[:3]:
         res.samples.append({"keys": c.keys, "impl": " ## ".join(impl)[:400]})
+
+
+# ---------------------------------------------------------------- C08: incremental search
+
+C08_POOL = ["abc", "xabcx", "ab", "b", "é日", "日é日", "a b,c", "foo(bar)", "ab\ncd", "zzz", "abab", "(x)", "ABC", " lead", "x",
+            "cab", "bca"]
+
+
+def gen_c08(rng):
+    cmds = []
+    for ch in p_tty.rand_text(rng, 0, 4, ["a", "b", "q", " "]):
+        cmds.append(Cmd([ch], "ins", c=ord(ch), n=1))
+    if rng.random() < 0.5:
+        cmds.append(Cmd([rng.choice(["Left", "C-a"])], "motion"))
+    for _ in range(rng.randint(1, 3)):
+        cmds.append(Cmd(["C-r"], "s_start"))
+        for _ in range(rng.randint(0, 9)):
+            r = rng.random()
+            if r < 0.50:
+                ch = rng.choice(["a", "b", "c", "x", "é", "日", "(", " ", "z", ","])
+                cmds.append(Cmd([ch], "s_char", c=ord(ch)))
+            elif r < 0.72:
+                cmds.append(Cmd(["C-r"], "s_again_r"))
+            elif r < 0.84:
+                cmds.append(Cmd(["C-s"], "s_again_f"))
+            else:
+                cmds.append(Cmd([rng.choice(["Backspace", "C-h"])], "s_bs"))
+        r = rng.random()
+        if r < 0.4:
+            cmds.append(Cmd(["C-g"], "s_abort"))
+        elif r < 0.8:
+            key, tag = rng.choice([("Left", "left"), ("C-a", "home"), ("C-e", "end"), ("Right", "right"), ("M-b", "bword")])
+            cmds.append(Cmd([key], "s_exit", cmd=tag))
+        else:
+            cmds.append(Cmd([rng.choice(["C-k", "C-t", "F5", "C-_"])], "s_exit", cmd=None))
+        for ch in p_tty.rand_text(rng, 0, 2, ["a", "Z"]):
+            cmds.append(Cmd([ch], "ins", c=ord(ch), n=1))
+    cmds.append(Cmd(["F12"], "noop"))
+    return cmds
+
+
+def c08_oracle_cases(tier, seed):
+    rng = random.Random(seed * 1409 + 17)
+    n = 3000 if tier == "thorough" else 260
+    cases = []
+    for _ in range(n):
+        hist = [rng.choice(C08_POOL) for _ in range(rng.choice([1, 2, 3, 4, 6, 8]))]
+        cases.append(script_case(gen_c08(rng), mode="emacs", history=hist, timeout=rng.choice(["none", 0]),
+                                 prompt=rng.choice(["> ", ""]), cols=rng.choice([80, 80, 24]),
+                                 initial=p_tty.mk_initial(rng, 0.25, ["a", "b", " ", "é"])))
+    return cases
+
+
+def find_cp(term, entry):
+    """first occurrence of the code-point list term in entry -> byte offset, or None"""
+    n = len(term)
+    for i in range(len(entry) - n + 1):
+        if entry[i:i + n] == term:
+            return blen(entry[:i])
+    return None
+
+
+def nearest(hist, term, start, direction):
+    if not term or start >= len(hist) or start < 0:
+        return None
+    rng_ = range(start, -1, -1) if direction == "r" else range(start, len(hist))
+    for i in rng_:
+        p = find_cp(term, hist[i])
+        if p is not None:
+            return i, p
+    return None
+
+
+def eval_c08(res, traces, segs, ws, stream):
+    stats = {}
+    for t in traces:
+        if not t.ok:
+            continue
+        hist = [[ord(ch) for ch in h] for h in t.case.history]
+        term, idx, d, backup = [], 0, "r", None
+        for i, (cmd, (text, pos), after, ob) in enumerate(t.steps):
+            if after[0] != "state":
+                break
+            text2, pos2 = after[1], after[2]
+            tag = cmd.tag
+            if not tag.startswith("s_"):
+                continue
+            stats[tag] = stats.get(tag, 0) + 1
+            exp = (text, pos)
+            hit = None
+            if tag == "s_start":
+                term, idx, d, backup = [], len(hist) - 1, "r", (text, pos)
+            elif tag == "s_char":
+                term = term + [cmd.arg["c"]]
+                hit = nearest(hist, term, idx, d)
+            elif tag == "s_again_r":
+                d = "r"
+                if idx > 0:
+                    idx -= 1
+                    hit = nearest(hist, term, idx, d)
+            elif tag == "s_again_f":
+                d = "f"
+                if idx < len(hist) - 1:
+                    idx += 1
+                    hit = nearest(hist, term, idx, d)
+            elif tag == "s_bs":
+                term = term[:-1]
+            elif tag == "s_abort":
+                exp = backup
+            elif tag == "s_exit":
+                if cmd.arg["cmd"] is None:
+                    continue
+                e2 = spec_apply(cmd.arg["cmd"], {}, text, pos, segs, ws)
+                if e2 is None:
+                    continue
+                exp = e2
+            if hit is not None:
+                idx = hit[0]
+                exp = (hist[idx], hit[1])
+                stats["hits"] = stats.get("hits", 0) + 1
+            res.nontrivial.add((tag, enc(text), enc(term), idx))
+            if (text2, pos2) != exp:
+                fail_case(res, stream, t, "search key %d %r (text '%s', position %d, %s): expected (%s,%d), shown (%s,%s)" % (
+                    i, cmd, enc(term), idx, "reverse" if d == "r" else "forward", enc(exp[0]), exp[1], enc(text2), pos2))
+                break
+    return stats
+
+
+def c08_corr(res, exe, driver, tier, seed, tmp):
+    cases = p_tty.c08_cases(tier, seed)
+    run_tty_cases(res, exe, driver, cases, tmp, "isearch", rng=random.Random(seed), typeahead=0.3)
+    ocases = c08_oracle_cases(tier, seed)
+    out, traces = run_spec_stream(res, exe, driver, ocases, tmp, "isearch-spec", seed)
+    segs = Segs(exe, tmp)
+    collect_segs(segs, traces)
+    stats = eval_c08(res, traces, segs, WordSpec(ud_tables()), "isearch-spec")
+    res.distribution.update({"oracle": stats, "spec_alignment": alignment(traces), "isearch_scripts": len(cases),
+                             "spec_scripts": len(ocases)})
+    res.rule = ("isearch: random emacs/vi scripts over 0-6 history entries (multi-byte, punctuation, multi-line, case variants), "
+                "C-r / C-s, typed search text, Backspace, direction changes, aborts by C-g and lone ESC, exits by other commands, undo "
+                "afterwards; compared with the extracted model. isearch-spec: a reference search written here (nearest entry from "
+                "the current position, inclusive, containing the text; first occurrence = cursor; repeat = one further; Backspace "
+                "does not search; C-g = line and cursor from before; a motion ends the search and acts on the shown entry) "
+                "predicts the line and cursor after every key pressed during a search.")
+    for c, impl, model, raw in out[:3]:
+        res.samples.append({"keys": c.keys, "impl": " ## ".join(impl)[:400]})
